@@ -35,15 +35,10 @@ func sortNaturalFilter(array []any, key any) any {
 	case reflect.ValueOf(array).Len() == 0:
 	case key != nil:
 		sort.Sort(keySortable{result, func(m any) string {
-			rv := reflect.ValueOf(m)
-			if rv.Kind() != reflect.Map || rv.Type().Key() != reflect.TypeOf(key) {
-				return ""
-			}
-			ev := rv.MapIndex(reflect.ValueOf(key))
-			if ev.IsValid() && ev.CanInterface() {
-				if s, ok := ev.Interface().(string); ok {
-					return strings.ToLower(s)
-				}
+			// (the element may be a map in any representation)
+			ev := reflect.ValueOf(values.ValueOf(m).IndexValue(values.ValueOf(key)).Interface())
+			if ev.IsValid() && ev.Kind() == reflect.String {
+				return strings.ToLower(ev.String())
 			}
 			return ""
 		}})
